@@ -158,20 +158,15 @@ def _find_kernel_type() -> Dict[str, Any]:
 
 
 def pctg_vcs() -> List[core.VC]:
-    """per-rank loop of get_temporal_breakdown: each collected list receives its own part of idle_time_per_rank(trace_df) (syntactic, from the AST);
-    the statements after the loop are executed in pctg_exec_vcs."""
-    f = extract.get_function(BA, "BreakdownAnalysis.get_temporal_breakdown")
-    src = ast.unparse(extract.stripped(f))
-    want = {
-        'result["idle_time(us)"].append(idle_time)', 'result["compute_time(us)"].append(compute_time)',
-        'result["non_compute_time(us)"].append(non_compute_time)', 'result["kernel_time(us)"].append(kernel_time)',
-        'idle_time, compute_time, non_compute_time, kernel_time = idle_time_per_rank(trace_df)',
-    }
-    norm = lambda s: s.replace("'", '"')
-    lines = {norm(l.strip()) for l in src.splitlines()}
-    missing = sorted(w for w in want if w not in lines)
-    return [core.VC(f"{PROP}.get_temporal_breakdown.percentage_tail", [], z3.BoolVal(not missing), "vc", [f.fq], {},
-                    note="each collected list receives its own part of idle_time_per_rank(trace_df); statements missing/changed: " + "; ".join(missing))]
+    """per-rank loop of get_temporal_breakdown, its body executed for an arbitrary iteration: each collected list receives, once,
+    its own part of idle_time_per_rank(this rank's frame) (contracts/collect_contract.py); the statements after the loop are
+    executed in pctg_exec_vcs."""
+    from contracts import collect_contract as cc
+
+    f, rank, _frame, parts, appends, _ex = cc.loop_appends(BA, "BreakdownAnalysis.get_temporal_breakdown", "idle_time_per_rank", 4)
+    ok, why = cc.appends_ok(appends, {"rank": rank, "idle_time(us)": parts[0], "compute_time(us)": parts[1], "non_compute_time(us)": parts[2], "kernel_time(us)": parts[3]})
+    return [core.VC(f"{PROP}.get_temporal_breakdown.loop", [], z3.BoolVal(ok), "vc", [f.fq], {},
+                    note="idle_time_per_rank returns (idle, compute, non_compute, kernel_time); per iteration: " + why)]
 
 
 def pctg_exec_vcs() -> List[core.VC]:
